@@ -228,10 +228,43 @@ def views_bits_corpus():
 
 def confirm(ob):
     c = ob.cex or {}
+    if "mismatch_panics" in ob.name:
+        return confirm_mismatch(ob)
     if c.get("program") and c.get("statistic"):
         return {"program": c["program"], "expected": {c["statistic"]: c.get("expected")}, "actual": {c["statistic"]: c.get("actual")},
                 "confirmed_on_real_code": True}
     return None
+
+
+def confirm_mismatch(ob):
+    """merge / += of histograms whose edges differ must panic: try edge pairs differing in exactly one position."""
+    import re
+    import replay
+    m = re.search(r"hist\[(\d+)\]\.(merge|add_assign)", ob.name)
+    if not m:
+        return None
+    L = int(m.group(1))
+    op = "merge" if m.group(2) == "merge" else "add_assign"
+    t = {1: "H1", 2: "H2", 3: "H3", 4: "H4", 10: "Histogram10"}.get(L)
+    if t is None:
+        return None
+    base = [float(i) for i in range(L + 1)]
+    progs = []
+    for k in range(L + 1):
+        other = list(base)
+        other[k] = base[k] + 0.5 if k == L else base[k] + 0.25
+        if sorted(other) != other:
+            continue
+        progs.append({"type": t, "ctor": ["from_ranges", base], "ops": [["add", 0.5], [op, {"type": t, "ctor": ["from_ranges", other], "ops": [["add", 0.5]]}]],
+                      "observe": ["bins"]})
+    results = replay.run_programs(progs)
+    for pg, res in zip(progs, results):
+        if res.get("error"):
+            return {"replay_error": res["error"]}
+        if not res["panic"]:
+            return {"program": pg, "expected": {"behaviour": "panic (edges differ)"}, "actual": {"bins": res["obs"].get("bins"), "panic": None},
+                    "confirmed_on_real_code": True}
+    return {"confirmed_on_real_code": False, "note": "all %d single-edge mismatches panic on the real crate" % len(progs)}
 
 
 def run(tier, seed):
